@@ -8,6 +8,7 @@ import importlib
 import json
 import multiprocessing
 import os
+import signal
 import sys
 import time
 import traceback
@@ -19,16 +20,53 @@ def _load(pid):
   return importlib.import_module('harness.props.%s' % pid.lower())
 
 
+class CaseTimeout(BaseException):
+  pass
+
+
+_TIMEOUTS = [0]
+
+
 def _safe_impl(mod, case):
+  # watchdog: a changed implementation may spin or block for ever (e.g. a blocking sleep in a retry loop); a case that
+  # does not finish within the limit is reported as such instead of stalling the whole check
+  limit = int(os.environ.get('VERIF_CASE_TIMEOUT', '') or getattr(mod, 'CASE_TIMEOUT', 150))
+  if _TIMEOUTS[0] >= 3:
+    # three cases already ran into the watchdog in this process: do not spend the limit again on every remaining case
+    return {'harness_exc': 'CaseTimeout: not run, %d earlier cases did not terminate within %d s' % (_TIMEOUTS[0], limit)}
+
+  def on_alarm(_sig, _frm):
+    raise CaseTimeout('implementation did not terminate within %d s of wall time' % limit)
+  old = None
+  try:
+    old = signal.signal(signal.SIGALRM, on_alarm)
+    signal.alarm(limit)
+  except Exception:
+    old = None
+  t_start = time.time()
   try:
     return mod.run_impl(case)
   except BaseException as e:  # the driver itself failed: reported as an observation
+    if isinstance(e, CaseTimeout):
+      _TIMEOUTS[0] += 1
     return {'harness_exc': '%s: %s' % (type(e).__name__, e), 'tb': traceback.format_exc()[-1500:]}
+  finally:
+    if os.environ.get('VERIF_TIMING') and time.time() - t_start > 2.0:
+      with open(os.path.join(C.BUILD, 'slow_cases.txt'), 'a') as f:
+        f.write('%s %.1f\n' % (getattr(mod, 'PID', '?'), time.time() - t_start))
+    try:
+      signal.alarm(0)
+      if old is not None:
+        signal.signal(signal.SIGALRM, old)
+    except Exception:
+      pass
 
 
 def _safe_monitor(mod, case, obs):
   try:
     if isinstance(obs, dict) and 'harness_exc' in obs:
+      if str(obs['harness_exc']).startswith('CaseTimeout'):
+        return [('implementation-did-not-terminate', obs['harness_exc'])]
       return [('harness-exception', obs['harness_exc'])]
     return list(mod.monitor(case, obs) or [])
   except BaseException as e:
